@@ -36,6 +36,8 @@ const (
 	clsErrHandleNil      = "C19/err-handler-called-with-nil"
 	clsNotStarted        = "C19/planned-stage-never-started"
 	clsTaskLostLater     = "C19/stage-task-abandoned-by-pool"
+	clsNextTwice         = "C19/stage-next-stages-planned-more-than-once"
+	clsLostEarly         = "C19/error-lost/callback-before-failing-stage-finished"
 )
 
 type viol struct {
@@ -67,7 +69,8 @@ type stageFacts struct {
 	lost          bool
 	rejected      bool
 	abandoned     bool
-	planned       int // number of stages NextStages() returned
+	planned       int // number of stages NextStages() returned (all calls)
+	nextCalls     int // calls of NextStages()
 }
 
 // judge is the trace specification of C19 for one executed tree.
@@ -120,13 +123,13 @@ func judge(out *caseOutcome) (vs []viol, facts map[string]int) {
 			}
 		case evPlanPanic:
 			f.planPanic = true
-			f.fail(e.Seq, "panic", fmt.Sprintf("c19-fail-s%d-plan", e.Stage))
+			f.fail(e.Seq, "panic", fmt.Sprintf("c19-fail-s%d-plan", specID(e.Stage)))
 			if firstPanic < 0 {
 				firstPanic = e.Seq
 			}
 		case evNextPanic:
 			f.nextPanic = true
-			f.fail(e.Seq, "panic", fmt.Sprintf("c19-fail-s%d-next", e.Stage))
+			f.fail(e.Seq, "panic", fmt.Sprintf("c19-fail-s%d-next", specID(e.Stage)))
 			if firstPanic < 0 {
 				firstPanic = e.Seq
 			}
@@ -141,15 +144,15 @@ func judge(out *caseOutcome) (vs []viol, facts map[string]int) {
 			f.opEnds++
 			f.lastOpEnd = e.Seq
 			if !e.NoErr && e.Err != "" {
-				ignored := ignoreOp[[2]int{e.Stage, e.Op}] && strings.Contains(e.Err, "not found")
+				ignored := ignoreOp[[2]int{specID(e.Stage), e.Op}] && strings.Contains(e.Err, "not found")
 				if !ignored {
-					f.fail(e.Seq, "error", failToken(e.Stage, e.Op))
+					f.fail(e.Seq, "error", failToken(specID(e.Stage), e.Op))
 				}
 			}
 		case evOpPanic:
 			f.opEnds++
 			f.lastOpEnd = e.Seq
-			tok := failToken(e.Stage, e.Op)
+			tok := failToken(specID(e.Stage), e.Op)
 			if e.Info == oPanicVal {
 				tok = "unknown error"
 			}
@@ -165,12 +168,16 @@ func judge(out *caseOutcome) (vs []viol, facts map[string]int) {
 		case evHookPanic:
 			// a panic in the stage's Complete() callback is a failure (a panic) of that stage
 			f.completePanic = true
-			f.fail(e.Seq, "panic", fmt.Sprintf("c19-fail-s%d-complete", e.Stage))
+			f.fail(e.Seq, "panic", fmt.Sprintf("c19-fail-s%d-complete", specID(e.Stage)))
 			if firstPanic < 0 {
 				firstPanic = e.Seq
 			}
+		case evNextEnter:
+			f.nextCalls++
 		case evNextReturn:
-			fmt.Sscan(e.Info, &f.planned)
+			n := 0
+			fmt.Sscan(e.Info, &n)
+			f.planned += n
 		case evHEnter:
 			f.hEnters = append(f.hEnters, e)
 			if cancelSeq >= 0 && e.Info == "err" && f.opStarts == 0 && f.failSeq < 0 && strings.Contains(e.Err, "context") {
@@ -179,7 +186,7 @@ func judge(out *caseOutcome) (vs []viol, facts map[string]int) {
 				f.rejected = true
 			}
 			if e.Info == "err-nil" {
-				add(clsErrHandleNil, "stage s%d: the error handler was invoked with a nil error", e.Stage)
+				add(clsErrHandleNil, "stage %s: the error handler was invoked with a nil error", stageName(e.Stage))
 			}
 		case evHExit:
 			f.hExits++
@@ -210,11 +217,15 @@ func judge(out *caseOutcome) (vs []viol, facts map[string]int) {
 		}
 		// a stage's Complete() must never run twice (resources are released there)
 		if len(f.hooks) > 1 {
-			add(clsHookTwice, "stage s%d: Complete() called %d times (t=%v)", id, len(f.hooks), f.hooks)
+			add(clsHookTwice, "stage %s: Complete() called %d times (t=%v)", stageName(id), len(f.hooks), f.hooks)
 		}
 		// the state machine must be told at most once that a stage is over (every call decrements pending)
+		// the next stages of a stage are planned (and started) once
+		if f.nextCalls > 1 {
+			add(clsNextTwice, "stage %s: NextStages() called %d times: its next stages were planned and handed to the pipeline again", stageName(id), f.nextCalls)
+		}
 		if n := len(f.hEnters) - f.hUnwinds; n > 1 {
-			add(clsHandlerTwice, "stage s%d: %d completion/error handler calls that ran to the end", id, n)
+			add(clsHandlerTwice, "stage %s: %d completion/error handler calls that ran to the end (%s)", stageName(id), n, handlerCalls(f))
 		}
 	}
 	// coverage facts: which stage was completed last by the state machine
@@ -252,6 +263,67 @@ func judge(out *caseOutcome) (vs []viol, facts map[string]int) {
 			}
 		}
 	}
+	// coverage facts: stages whose Plan() returned nil (nothing to execute: the stage completes without running an
+	// operator), by position, and what else was going on when they completed
+	specOf := map[int]*stageSpec{}
+	for _, s := range out.Spec.stages() {
+		specOf[s.ID] = s
+	}
+	for _, id := range ids {
+		f := st[id]
+		sp := specOf[specID(id)]
+		if sp == nil || sp.PlanKind != "nil" || sp.PlanPanic || f.registered < 0 || len(f.hEnters) == 0 {
+			continue
+		}
+		facts["nil_plan_stages_completed"]++
+		if f.async {
+			facts["nil_plan_stage_pooled"]++
+		} else {
+			facts["nil_plan_stage_inline"]++
+		}
+		if len(sp.Children) > 0 {
+			facts["nil_plan_stage_inner_node"]++
+		} else {
+			facts["nil_plan_stage_leaf"]++
+		}
+		anc := map[int]bool{}
+		par := parentOf(out.Spec, sp.ID)
+		for p := par; p != nil; p = parentOf(out.Spec, p.ID) {
+			anc[p.ID] = true
+		}
+		switch {
+		case par == nil:
+			facts["nil_plan_stage_root"]++
+		case len(par.Children) == 1:
+			facts["nil_plan_stage_only_child"]++
+		case par.Children[0] == sp:
+			facts["nil_plan_stage_first_sibling"]++
+		case par.Children[len(par.Children)-1] == sp:
+			facts["nil_plan_stage_last_sibling"]++
+		default:
+			facts["nil_plan_stage_middle_sibling"]++
+		}
+		at := f.hEnters[0].Seq
+		other, failsLater := false, false
+		for _, oid := range ids {
+			o := st[oid]
+			if oid == id || o.registered < 0 {
+				continue
+			}
+			if o.failSeq > at {
+				failsLater = true
+			}
+			if o.registered < at && !anc[specID(oid)] && (len(o.hooks) == 0 || o.hooks[0] > at) {
+				other = true
+			}
+		}
+		if other {
+			facts["nil_plan_stage_completed_while_non_ancestor_stage_unfinished"]++
+		}
+		if failsLater {
+			facts["nil_plan_stage_completed_before_another_stage_failed"]++
+		}
+	}
 	if cancelSeq >= 0 {
 		facts["runs_with_context_cancelled"] = 1
 		for _, id := range ids {
@@ -278,7 +350,7 @@ func judge(out *caseOutcome) (vs []viol, facts map[string]int) {
 	if len(callbacks) > 1 {
 		var when []string
 		for _, cb := range callbacks {
-			when = append(when, fmt.Sprintf("t=%d by s%d err=%q", cb.Seq, cb.Stage, cb.Err))
+			when = append(when, fmt.Sprintf("t=%d by %s err=%q", cb.Seq, stageName(cb.Stage), cb.Err))
 		}
 		add(clsTwice, "completion callback invoked %d times: %s", len(callbacks), strings.Join(when, "; "))
 	}
@@ -312,27 +384,27 @@ func judge(out *caseOutcome) (vs []viol, facts map[string]int) {
 				unexplained = append(unexplained, id)
 			}
 		}
-		detail := fmt.Sprintf("stages registered=%d, never completed by the state machine=%v, pool_idle=%v %v", len(ids), unfinished, out.PoolIdle, out.PoolInfo)
+		detail := fmt.Sprintf("stages registered=%d, never completed by the state machine=%v, pool_idle=%v %v", len(ids), stageNames(unfinished), out.PoolIdle, out.PoolInfo)
 		switch {
 		case len(unfinished) == 0:
 			add(clsHangAllDone, "callback never invoked although every registered stage was completed; %s", detail)
 		case len(unexplained) > 0:
-			add(clsHangOther, "callback never invoked; stages %v never completed for no recognised reason; %s", unexplained, detail)
+			add(clsHangOther, "callback never invoked; stages %v never completed for no recognised reason; %s", stageNames(unexplained), detail)
 		case len(abandoned) > 0:
-			add(clsHangAbandoned, "callback never invoked; the pools consumed the tasks of stages %v (their counters are idle) but neither the completion nor the error handler of these stages was ever called; %s", abandoned, detail)
+			add(clsHangAbandoned, "callback never invoked; the pools consumed the tasks of stages %v (their counters are idle) but neither the completion nor the error handler of these stages was ever called; %s", stageNames(abandoned), detail)
 		case len(lostTask) > 0 && cancelSeq < 0:
-			add(clsHangRejected, "callback never invoked; the pools counted the tasks of stages %v as rejected although their context was never cancelled; %s", lostTask, detail)
+			add(clsHangRejected, "callback never invoked; the pools counted the tasks of stages %v as rejected although their context was never cancelled; %s", stageNames(lostTask), detail)
 		case len(lostTask) > 0:
 			add(clsHangLostTask, "callback never invoked; the context of the pooled stages was cancelled at t=%d, the stages %v were then handed to their pool, "+
-				"which counted them as rejected and dropped them without calling any handler: they stay pending forever; %s", cancelSeq, lostTask, detail)
+				"which counted them as rejected and dropped them without calling any handler: they stay pending forever; %s", cancelSeq, stageNames(lostTask), detail)
 		case len(syncOrigin) > 0:
 			add(clsHangSyncPanic, "callback never invoked; inline (sync) stages %v panicked below a stage that runs on a pool: "+
-				"the pool reported the panic as the pooled stage's failure, the inline stages stay pending forever; %s", syncOrigin, detail)
+				"the pool reported the panic as the pooled stage's failure, the inline stages stay pending forever; %s", stageNames(syncOrigin), detail)
 		case len(planOrigin) > 0:
 			add(clsHangPlanPanic, "callback never invoked; Plan() of stages %v panicked in the frame of a stage that runs on a pool: "+
-				"the pool reported the panic as the pooled stage's failure, the registered stage is never completed; %s", planOrigin, detail)
+				"the pool reported the panic as the pooled stage's failure, the registered stage is never completed; %s", stageNames(planOrigin), detail)
 		default:
-			add(clsHangOther, "callback never invoked; inline stages %v were unwound by a panic whose origin is not in the trace; %s", unfinished, detail)
+			add(clsHangOther, "callback never invoked; inline stages %v were unwound by a panic whose origin is not in the trace; %s", stageNames(unfinished), detail)
 		}
 		facts["no_callback"] = 1
 		return vs, facts
@@ -365,14 +437,14 @@ func judge(out *caseOutcome) (vs []viol, facts map[string]int) {
 				}
 			}
 			if !hooked {
-				bad = append(bad, fmt.Sprintf("stage s%d registered at t=%d had not been completed (no Complete() before the callback)", id, f.registered))
+				bad = append(bad, fmt.Sprintf("stage %s registered at t=%d had not been completed (no Complete() before the callback)", stageName(id), f.registered))
 			}
 		}
 		if len(bad) > 0 {
 			if len(bad) > 6 {
 				bad = append(bad[:6], "...")
 			}
-			add(clsEarly, "callback at t=%d (by s%d) although no stage had panicked and started stages were unfinished: %s", cb.Seq, cb.Stage, strings.Join(bad, "; "))
+			add(clsEarly, "callback at t=%d (by %s) although no stage had panicked and started stages were unfinished: %s", cb.Seq, stageName(cb.Stage), strings.Join(bad, "; "))
 		} else {
 			facts["callback_after_all_finished"] = 1
 		}
@@ -391,14 +463,14 @@ func judge(out *caseOutcome) (vs []viol, facts map[string]int) {
 	case len(failedBefore) > 0 && !cbErr:
 		var names []string
 		for _, f := range failedBefore {
-			names = append(names, fmt.Sprintf("s%d(%s at t=%d)", f.id, f.failKind, f.failSeq))
+			names = append(names, fmt.Sprintf("%s(%s at t=%d)", stageName(f.id), f.failKind, f.failSeq))
 		}
 		by := st[cb.Stage]
 		// what the state machine was told: pipeline.Stats() keeps the state/ErrMsg written by completeStage
 		var notTold []string
 		for _, f := range failedBefore {
 			if s := statsOf(out, f.id); s == nil || s.State != "Error" {
-				notTold = append(notTold, fmt.Sprintf("s%d", f.id))
+				notTold = append(notTold, stageName(f.id))
 			}
 		}
 		cls := clsLostOther
@@ -421,11 +493,11 @@ func judge(out *caseOutcome) (vs []viol, facts map[string]int) {
 			why = fmt.Sprintf("the state machine was never told that %s failed (their stats state is not Error)", strings.Join(notTold, ","))
 		case by != nil && by.failSeq >= 0:
 			cls = clsLostLast
-			why = fmt.Sprintf("the callback was triggered by the completion of the failing stage s%d itself", cb.Stage)
+			why = fmt.Sprintf("the callback was triggered by the completion of the failing stage %s itself", stageName(cb.Stage))
 		case by != nil && by.failSeq < 0 && len(by.hEnters) > 0 && by.hEnters[len(by.hEnters)-1].Info == "complete":
 			cls = clsLostNotLast
-			why = fmt.Sprintf("the state machine had recorded the failures, but the callback was triggered by the successful completion of s%d, "+
-				"the last stage to finish, and only that stage's (nil) error was passed on", cb.Stage)
+			why = fmt.Sprintf("the state machine had recorded the failures, but the callback was triggered by the successful completion of %s, "+
+				"the last stage to finish, and only that stage's (nil) error was passed on", stageName(cb.Stage))
 		}
 		add(cls, "callback got a nil error although %s failed before it (t=%d); %s", strings.Join(names, ", "), cb.Seq, why)
 	case len(failedBefore) == 0 && cbErr:
@@ -447,12 +519,28 @@ func judge(out *caseOutcome) (vs []viol, facts map[string]int) {
 		facts["clean_completion"] = 1
 	}
 
+	// a completion signalled too early (no panic before it) with a nil error cannot carry the failure of a stage that was
+	// still unfinished: the failure of that stage is dropped (the CAS guard swallows the later completion)
+	if !panicBefore && !cbErr {
+		var late []string
+		for _, id := range ids {
+			f := st[id]
+			if f.failSeq > cb.Seq && f.registered >= 0 {
+				late = append(late, fmt.Sprintf("%s(%s at t=%d, registered at t=%d)", stageName(f.id), f.failKind, f.failSeq, f.registered))
+			}
+		}
+		if len(late) > 0 {
+			add(clsLostEarly, "callback got a nil error at t=%d (by %s, no stage had panicked); %s failed after it: the pipeline was completed while started/planned stages were unfinished, their failure is never reported",
+				cb.Seq, stageName(cb.Stage), strings.Join(late, ", "))
+		}
+	}
+
 	// --- beyond the statement: every completed stage released exactly once, stats agree -------
 	if !panicBefore && out.Quiescent && firstPanic < 0 {
 		for _, id := range ids {
 			f := st[id]
 			if f.registered >= 0 && len(f.hooks) == 0 {
-				add(clsHookMissing, "stage s%d was registered but Complete() never ran although the pipeline completed without a panic", id)
+				add(clsHookMissing, "stage %s was registered but Complete() never ran although the pipeline completed without a panic", stageName(id))
 			}
 		}
 		for _, id := range ids {
@@ -466,40 +554,42 @@ func judge(out *caseOutcome) (vs []viol, facts map[string]int) {
 				want = "Error"
 			}
 			if s == nil {
-				add(clsStatsState, "stage s%d is missing from pipeline.Stats()", id)
+				add(clsStatsState, "stage %s is missing from pipeline.Stats()", stageName(id))
 			} else if s.State != want {
-				add(clsStatsState, "stage s%d: pipeline.Stats() reports state %q, the stage's outcome was %q", id, s.State, want)
+				add(clsStatsState, "stage %s: pipeline.Stats() reports state %q, the stage's outcome was %q", stageName(id), s.State, want)
 			}
 		}
 		facts["stats_checked"] = 1
 	}
 	// the mechanism behind "only at the end": the stages a completed stage plans are registered before it is completed
+	// (counted per stage of the specification: all instances of the stage against all instances of its children)
 	if firstPanic < 0 && out.Quiescent {
+		planned := map[int]int{}
 		for _, id := range ids {
-			f := st[id]
-			if f.planned == 0 {
+			planned[specID(id)] += st[id].planned
+		}
+		for _, sp := range out.Spec.stages() {
+			if planned[sp.ID] == 0 {
 				continue
 			}
-			var sp *stageSpec
-			for _, s := range out.Spec.stages() {
-				if s.ID == id {
-					sp = s
-				}
+			child := map[int]bool{}
+			for _, ch := range sp.Children {
+				child[ch.ID] = true
 			}
 			started := 0
-			for _, ch := range sp.Children {
-				if cf := st[ch.ID]; cf != nil && cf.registered >= 0 {
+			for _, id := range ids {
+				if child[specID(id)] && st[id].registered >= 0 {
 					started++
 				}
 			}
-			if started < f.planned {
+			if started < planned[sp.ID] {
 				add(clsNotStarted, "stage s%d planned %d next stages, only %d were handed to the pipeline's state machine although no stage panicked (callback at t=%d)",
-					id, f.planned, started, cb.Seq)
+					sp.ID, planned[sp.ID], started, cb.Seq)
 			}
 		}
 	}
 	if len(out.Abandoned) > 0 {
-		add(clsTaskLostLater, "pooled stages %v were consumed by their pool without any handler call", out.Abandoned)
+		add(clsTaskLostLater, "pooled stages %v were consumed by their pool without any handler call", stageNames(out.Abandoned))
 	}
 	_ = mainPanic
 	return vs, facts
@@ -537,9 +627,12 @@ func parentOf(t *treeSpec, id int) *stageSpec {
 
 // hasAsyncAncestor: some ancestor of the stage ran on a pool (observed, not just specified).
 func hasAsyncAncestor(t *treeSpec, id int, st map[int]*stageFacts) bool {
-	for p := parentOf(t, id); p != nil; p = parentOf(t, p.ID) {
-		if f := st[p.ID]; f != nil && f.async {
-			return true
+	// (an ancestor that was instantiated more than once: any instance observed on a pool counts)
+	for p := parentOf(t, specID(id)); p != nil; p = parentOf(t, p.ID) {
+		for k, f := range st {
+			if specID(k) == p.ID && f.async {
+				return true
+			}
 		}
 	}
 	return false
@@ -558,11 +651,11 @@ func recoveredByPool(out *caseOutcome, id int) bool {
 		return false
 	}
 	anc := map[int]bool{}
-	for p := parentOf(out.Spec, id); p != nil; p = parentOf(out.Spec, p.ID) {
+	for p := parentOf(out.Spec, specID(id)); p != nil; p = parentOf(out.Spec, p.ID) {
 		anc[p.ID] = true
 	}
 	for _, e := range out.Trace {
-		if e.Seq > unwindSeq && e.G == g && e.Kind == evHEnter && e.Info == "err" && anc[e.Stage] {
+		if e.Seq > unwindSeq && e.G == g && e.Kind == evHEnter && e.Info == "err" && anc[specID(e.Stage)] {
 			return true
 		}
 	}
@@ -571,7 +664,7 @@ func recoveredByPool(out *caseOutcome, id int) bool {
 
 // statsOf finds the stage in pipeline.Stats() (the state machine's own record of the stage).
 func statsOf(out *caseOutcome, id int) *commonmodels.StageStats {
-	name := fmt.Sprintf("s%d", id)
+	name := stageName(id)
 	var res *commonmodels.StageStats
 	var walk func(ss []*commonmodels.StageStats)
 	walk = func(ss []*commonmodels.StageStats) {
@@ -584,4 +677,21 @@ func statsOf(out *caseOutcome, id int) *commonmodels.StageStats {
 	}
 	walk(out.Stats)
 	return res
+}
+
+func stageNames(ids []int) []string {
+	out := make([]string, len(ids))
+	for i, id := range ids {
+		out[i] = stageName(id)
+	}
+	return out
+}
+
+// handlerCalls lists the handler invocations of one stage: kind, logical time, goroutine.
+func handlerCalls(f *stageFacts) string {
+	var parts []string
+	for _, e := range f.hEnters {
+		parts = append(parts, fmt.Sprintf("%s at t=%d on g%d", e.Info, e.Seq, e.G))
+	}
+	return strings.Join(parts, ", ")
 }
